@@ -97,8 +97,7 @@ def c09_1(ctx):
         ctx.ob(R, "removal-id", ok, "each removal is recorded once per spend, in list order, with id = Coin::coin_id()")
 
 
-def c09_2(ctx):
-    R = "C09.2"
+def c09_2(ctx, R="C09.2"):
     fb = ctx.fb
     f = _fn(fb, CC + "additions_and_removals::additions_and_removals")
     if f:
